@@ -6,7 +6,7 @@ from pyvc import npsym as N
 from pyvc import terms as T
 from pyvc.contract import Contract, register
 from pyvc.ctx import PathAbort
-from pyvc.values import Arr, Rec, SymList
+from pyvc.values import Arr, Opaque, Rec, SymList
 
 I_ = z3.IntSort()
 TT_ = "pyttb.ttensor.ttensor."
@@ -324,4 +324,58 @@ class ktensor_nvecs(tensor_nvecs):
         S.assume(a["n"] < K.ghost["N"])
         S.assume(T.tz(K.ghost["shape"].fn(a["n"])) == K.ghost["dn"])
         a["__self__"] = K
+        return a
+
+
+def _abs_core_ttm(it, pos, kw, self_val):
+    """core.ttm(V): the core multiplied in every mode (C02; result abstract)"""
+    new = Rec("sptensor", dict(self_val.fields))
+    new.ghost = dict(self_val.ghost)
+    new.ghost["cn"] = self_val.ghost["dn"]       # mode n is multiplied by the factor itself: it gets the tensor's size
+    return new
+
+
+def _abs_core_unfold(it, pos, kw, self_val):
+    """(core or product).to_sptenmat / full().to_tenmat with mode n in the columns, then double(): a matrix with one column per
+    index of mode n (abstract)"""
+    out = Rec("sptenmat", {})
+    out.ghost = dict(mat=Arr.fresh("Gn", (self_val.ghost["orows"], self_val.ghost["cn"]), "real"))
+    return out
+
+
+def _abs_unfold_double(it, pos, kw, self_val):
+    """double() of the abstract unfolding"""
+    return self_val.ghost["mat"]
+
+
+@register
+class ttensor_nvecs(tensor_nvecs):
+    qual = "pyttb.ttensor.ttensor.nvecs"
+    inline = ("pyttb.ttensor.ttensor.order",)
+    loops = {0: dict(modifies=["V"], inv=lambda S, a, env, i: True, havoc=lambda S, a, env, name: Opaque("list-of-factors-and-Gram-matrices")),
+             1: tensor_nvecs.loops[0]}
+
+    def abstract_calls(self, S, a):
+        Q = "pyttb.sptensor.sptensor."
+        return {Q + "ttm": _abs_core_ttm, Q + "to_sptenmat": _abs_core_unfold, "pyttb.sptenmat.sptenmat.double": _abs_unfold_double}
+
+    def setup(self, S, case):
+        a = super().setup(S, case)
+        dn = a["__self__"].ghost["dn"]
+        Nn = S.int("N", 1)
+        cn = S.int("cn", 1)                       # size of the core in mode n
+        rows = z3.Function(T.fresh_name("tn_rows"), I_, I_)
+        cols = z3.Function(T.fresh_name("tn_cols"), I_, I_)
+        fm = z3.Function(T.fresh_name("tn_fm"), I_, I_, I_, z3.RealSort())
+        m = z3.Int("tn!m")
+        S.assume(T.ForAll([m], z3.And(rows(m) >= 1, cols(m) >= 1), [rows(m)]))
+        S.assume(a["n"] < Nn)
+        S.assume(rows(T.tz(a["n"])) == dn)
+        S.assume(cols(T.tz(a["n"])) == cn)
+        fms = SymList(Nn, lambda mm: Arr((rows(T.tz(mm)), cols(T.tz(mm))), lambda i, j, mm=mm: fm(T.tz(mm), T.tz(i), T.tz(j)), "real"), kind="list")
+        core = Rec("sptensor", {})
+        core.ghost = dict(cn=cn, dn=dn, orows=S.int("orows", 1))      # orows: product of the core sizes of the other modes
+        me = Rec("ttensor", dict(core=core, factor_matrices=fms))
+        me.ghost = dict(dn=dn)
+        a["__self__"] = me
         return a
